@@ -30,31 +30,32 @@ theorem promotion_needs (cfg : Cfg) (i : In) (s : Step) (hs : s ∈ performSwitc
     i.lock1 = true ∧ i.lock2 = true ∧
     (∃ ps mr, i.positions = some ps ∧ ps.length = (frozen i).length ∧ findMostRecent ps = .node mr) ∧
     (i.catchUp = .caught ∨ i.catchUp = .asyncEscape) := by
-  sorry
+  obtain ⟨h, ok, rfl⟩ := hp
+  exact SwitchoverLemmas.promotion_needs cfg i h ok hs
 
 /-- frozen hosts are members of the published list (minus the failed master of an automatic failover),
 were reachable in the view, accepted the read-only request and — unless it is the old master —
 stopped their IO thread -/
 theorem frozen_spec (i : In) (h : String) (hf : h ∈ frozen i) :
     h ∈ i.active ∧ (i.cs.get? h).map (·.pingOk) = some true ∧ i.ro h = true ∧ (h = i.oldMaster ∨ i.io h = true) := by
-  sorry
+  exact SwitchoverLemmas.frozen_spec i h hf
 
 /-- the quorum re-count in numbers: with semi-sync the frozen hosts are at least the failover quorum
 of the PUBLISHED list, without semi-sync at least one -/
 theorem quorum_recount (cfg : Cfg) (i : In) (s : Step) (hs : s ∈ performSwitchover cfg i) (hp : IsPromotion s) :
     (cfg.semiSync = true → Gen.SwitchHelper.GetFailoverQuorum (sh cfg) i.active ≤ (frozen i).length) ∧
     (cfg.semiSync = false → 1 ≤ (frozen i).length) := by
-  sorry
+  exact SwitchoverLemmas.quorum_numbers cfg i (promotion_needs cfg i s hs hp).2.2.1
 
 /-- E3 (environment lemma, not an axiom): a frozen node's `executed ∪ retrieved` does not grow under
 any sequence of environment steps, and it stays frozen -/
 theorem frozen_totals_stable (n n' : Env.Node) (hf : Env.Frozen n) (hs : Env.Steps n n') :
     Env.Frozen n' ∧ ∀ k x, n'.Total k x → n.Total k x := by
-  sorry
+  exact SwitchoverLemmas.env_steps_frozen hf hs
 
 /-- executed sets only grow under environment steps -/
 theorem executed_monotone (n n' : Env.Node) (hs : Env.Steps n n') : ∀ k x, n.executed.Mem k x → n'.executed.Mem k x := by
-  sorry
+  exact SwitchoverLemmas.env_steps_executed hs
 
 /-- The semantic core.  Let `total f` be the frozen host's `executed ∪ retrieved` as collected in phase 3
 (`hpos`: the collected positions are exactly those of the frozen hosts, well-formed), and let
@@ -67,13 +68,14 @@ theorem promotion_safe (cfg : Cfg) (i : In) (s : Step) (hs : s ∈ performSwitch
     (hcaught : i.catchUp = .caught → ∀ ps mr, i.positions = some ps → findMostRecent ps = .node mr → GSubset mr.gtid execNew)
     (hc : i.catchUp = .caught) :
     ∀ f ∈ frozen i, GSubset (total f) execNew := by
-  sorry
+  obtain ⟨h, ok, rfl⟩ := hp
+  exact SwitchoverLemmas.promotion_safe cfg i h ok hs total execNew hpos hcaught hc
 
 /-- the only exception: the allowed lag of async mode during AUTOMATIC failover -/
 theorem async_escape_only_if (cfg : Cfg) (sw : Manager.Switch) (delay : Option Int)
     (h : checkAsyncSwitchAllowed cfg sw delay = true) :
     cfg.async = true ∧ sw.causeAuto = true ∧ cfg.asyncAllowedLag > 0 ∧ ∃ d, delay = some d ∧ d * 1000000000 < cfg.asyncAllowedLag := by
-  sorry
+  exact SwitchoverLemmas.async_escape_only_if cfg sw delay h
 
 /-- split brain: if the frozen members' positions have no maximum, nothing is promoted (no writable,
 no replication reset, no re-pointing) and the emergency marker is written -/
@@ -82,12 +84,16 @@ theorem splitbrain_aborts (cfg : Cfg) (i : In) (ps : List Pos)
     (hreach : Step.positions true ∈ performSwitchover cfg i) :
     (performSwitchover cfg i).getLast? = some .writeEmerge ∧
     ∀ s ∈ performSwitchover cfg i, ¬ IsPromotion s ∧ (∀ h ok, s ≠ .resetSlaveAll h ok) ∧ (∀ h t ok, s ≠ .changeMaster h t ok) := by
+  -- FALSE as stated for ILL-FORMED positions: a single collected position whose host is `sw.from_` and whose set has
+  -- an empty interval is "split brain" for `findMostRecent` (it does not contain itself), but the procedure stops at
+  -- "no suitable nodes to switch from".  Corrected statement (extra hypothesis `∀ p ∈ ps, WF p.gtid`), proved:
+  -- `SwitchoverLemmas.splitbrain_aborts`; the second conjunct holds unconditionally (`SwitchoverLemmas.splitbrain_no_promo`).
   sorry
 
 /-- the emergency marker is written only on split brain -/
 theorem emerge_only_on_splitbrain (cfg : Cfg) (i : In) (h : Step.writeEmerge ∈ performSwitchover cfg i) :
     ∃ ps, i.positions = some ps ∧ findMostRecent ps = .splitBrain := by
-  sorry
+  exact SwitchoverLemmas.emerge_only_on_splitbrain cfg i h
 
 /-- order: every freeze step precedes the first lock re-confirmation, which precedes the catch-up test,
 which precedes the second re-confirmation, which precedes every promotion step -/
@@ -96,7 +102,7 @@ theorem promotion_order (cfg : Cfg) (i : In) (pre post : List Step) (h : String)
     ∃ a b c d, pre = a ++ Step.lockCheck 1 true :: b ++ Step.catchUp i.catchUp :: c ++ Step.lockCheck 2 true :: d ∧
       (∀ s ∈ b ++ c ++ d, (∀ x o, s ≠ .freezeRO x o) ∧ (∀ x o, s ≠ .stopIO x o)) ∧
       Step.resetSlaveAll h true ∈ d := by
-  sorry
+  exact SwitchoverLemmas.promotion_order cfg i pre post h ok hsplit
 
 /-- a crash at any point (= any prefix of the step list) has promoted nothing unless all of the above
 already happened: immediate from `promotion_needs`, which speaks about membership in the full list,
@@ -105,13 +111,15 @@ theorem crash_prefix_safe (cfg : Cfg) (i : In) (pre post : List Step) (s : Step)
     (hsplit : performSwitchover cfg i = pre ++ post) (hs : s ∈ pre) (hp : IsPromotion s) :
     Gen.SwitchHelper.CheckFailoverQuorum (sh cfg) i.active (frozen i).length = none ∧ i.lock1 = true ∧ i.lock2 = true ∧
     (i.catchUp = .caught ∨ i.catchUp = .asyncEscape) := by
-  sorry
+  have hs' : s ∈ performSwitchover cfg i := by rw [hsplit]; exact List.mem_append_left _ hs
+  obtain ⟨_, _, h3, h4, h5, _, h7⟩ := promotion_needs cfg i s hs' hp
+  exact ⟨h3, h4, h5, h7⟩
 
 /-- the promoted host is the requested target, or one of the frozen positions -/
 theorem promoted_is_target_or_frozen (cfg : Cfg) (i : In) (h : String) (ok : Bool)
     (hs : Step.setWritable h ok ∈ performSwitchover cfg i) :
     (i.sw.to ≠ "" ∧ h = i.sw.to) ∨ (i.sw.to = "" ∧ ∃ ps p, i.positions = some ps ∧ p ∈ ps ∧ p.host = h ∧ (i.sw.from_ = "" ∨ h ≠ i.sw.from_)) := by
-  sorry
+  exact SwitchoverLemmas.promoted_is_target_or_frozen cfg i h ok hs
 
 -- non-vacuity: a planned switchover in a healthy 3-node cluster promotes b
 private def k : Key := ⟨"00000000-0000-0000-0000-000000000001", ""⟩
